@@ -905,12 +905,10 @@ func (p *parser) scanDollar() (*RegexNode, error) {
 			}
 		}
 	} else if angled && p.isGroupNameStartChar(ch) {
+		// a malformed name (ECMAScript: a bad \u escape) is not a reference: the $ is literal text
 		capname, err := p.scanCapname()
-		if err != nil {
-			return nil, err
-		}
 
-		if p.charsRight() > 0 && p.moveRightGetChar() == '}' {
+		if err == nil && p.charsRight() > 0 && p.moveRightGetChar() == '}' {
 			if p.isCaptureName(capname) {
 				return newRegexNodeM(NtRef, p.options, p.captureSlotFromName(capname)), nil
 			}
